@@ -4,6 +4,15 @@
 import json, subprocess
 
 BUILT = {
+ "C05": ("exploration", "independent reference SQL evaluator over the model vs the real parse path + EvaluateSelect on a real database (ORDER BY ties and LIMIT windows judged up to the freedom the property leaves)",
+         "Held on the queries explored: thousands of generated single-table queries per run over all clause combinations, all six operators on all types, and every AND/OR shape up to 4 predicates on a truth table.",
+         "non-NULL operands; names of unnamed expressions not judged"),
+ "C06": ("exploration", "join-by-definition reference evaluator (explicit NULL padding) vs the real engine, multiset comparison; ambiguity probes must be rejected",
+         "Held on the join chains explored: all nine two-join type sequences, self-joins, empty sides, duplicate keys.",
+         "non-NULL join keys"),
+ "C07": ("exploration", "exact-sum reference aggregates vs the real engine as multisets, on three insertion orders of the same rows (order-independence monitor)",
+         "Held except for one recorded known finding (AVG re-rounds a running average); grouping by 0-3 columns referenced by name/qualifier/alias at any select-list position, collision-bait values, on top of WHERE and JOIN.",
+         "AVG over integer columns, NULLs only under COUNT(col); .5 averages accept both neighbours"),
  "C12": ("exploration", "encode/decode, double round trip and write/cold-read round trip of nodes built with the engine's own primitives, logical dumps compared",
          "Held on the nodes explored: every leaf cell count, every tombstone mask <= 6 cells, all flag combinations, boundary and sampled (quick) / all (thorough) value lengths, internal nodes 0..290 cells, split halves, thousands of random nodes.",
          "only shapes producible with ascending keys are judged; free-gap bytes not compared"),
